@@ -6,7 +6,7 @@ design:     Paths.tla / MC_Paths*.cfg - the helpers transcribed one-to-one, the 
 spec->code: Gen_Paths (the same enumeration, exhaustively: every string / pair / triple up to the family's bounds) and
             Gen_PathsLong (-simulate: long random paths and spelling variants of them) print the inputs; this driver
             evaluates the REAL helpers (Provider.join/split/normalize_path/is_subpath/replace_path/paths_match/dirname/
-            basename/is_subpath_of_root on MockProvider subclasses for the 8 conventions, CloudSync.translate on real
+            basename/is_subpath_of_root on bare Provider subclasses for the 8 conventions, CloudSync.translate on real
             CloudSync objects) on them and records inputs + results as trace lines.
 code->spec: Trace_Paths (TLC) evaluates every LAW on the code's results (false -> violation, clause = the law) and
             compares the code's results with the specification operators' (different -> non-conformance only).
@@ -14,7 +14,6 @@ Python only executes and records; the shape / exception tags of a signature are 
 """
 import itertools
 import multiprocessing
-import os
 
 from ..core import import_repo, MachineryError
 from ..runner import main
@@ -24,6 +23,7 @@ CH = {1: "/", 2: "\\", 3: "a", 4: "A", 5: ".", 6: " ", 7: "é", 8: ":"}
 CODE = {v: k for k, v in CH.items()}
 CONVS = [(sep, cs, win) for sep in (1, 2) for cs in (1, 0) for win in (0, 1)]       # the 8 helper configurations
 CHUNK = 64                                                                          # cases per trace
+SLICE = 160000                                                                      # cases per validation round (thorough)
 
 
 def s2p(codes):
@@ -60,14 +60,21 @@ _world = {}
 
 
 def make_provider(sep, cs, win, key):
-    """A MockProvider subclass that only sets the four path-convention attributes."""
+    """A bare Provider subclass: the four path-convention attributes, inert stubs for the abstract methods (no provider
+    logic runs - the helpers under test are inherited unchanged from cloudsync.provider.Provider)."""
     import_repo()
-    from cloudsync.providers.mock import MockProvider
-    cls = type("P%d%d%d" % (sep, cs, win), (MockProvider,), dict(sep=CH[sep], alt_sep=CH[3 - sep], win_paths=bool(win)))
-    p = cls(oid_is_path=False, case_sensitive=bool(cs))
+    from cloudsync.provider import Provider
+    body = {m: (lambda self, *a, **k: None) for m in Provider.__abstractmethods__}
+    body.update(sep=CH[sep], alt_sep=CH[3 - sep], case_sensitive=bool(cs), win_paths=bool(win), name="paths",
+                connect_impl=lambda self, creds: creds["key"])
+    p = type("P%d%d%d" % (sep, cs, win), (Provider,), body)()
     p.connect({"key": key})
     if (p.sep, p.alt_sep, p.case_sensitive, p.win_paths) != (CH[sep], CH[3 - sep], bool(cs), bool(win)):
         raise MachineryError("could not configure a provider for %r" % ((sep, cs, win),))
+    for h in ("join", "split", "normalize_path_separators", "normalize_path", "is_subpath", "is_subpath_of_root",
+              "replace_path", "paths_match", "dirname", "basename"):
+        if getattr(type(p), h).__qualname__.split(".")[0] != "Provider":
+            raise MachineryError("helper %s is not the one of cloudsync.provider.Provider" % h)
     return p
 
 
@@ -304,18 +311,13 @@ def run_cases(ctx, cases, what):
     viols, _ = tc.validate(ctx, "Trace_Paths", "Trace_Paths.cfg", traces, what,
                            min_batch=max(48, len(traces) // ctx.workers + 1))      # >= ~3000 lines per JVM
     ctx.count(evaluations=len(lines))
-    ctx.extra["lines_by_kind"] = ctx.extra.get("lines_by_kind", {})
-    for ln in lines:
-        ctx.extra["lines_by_kind"][ln["kind"]] = ctx.extra["lines_by_kind"].get(ln["kind"], 0) + 1
+    by_kind = ctx.extra.setdefault("lines_by_kind", {})
     nontriv = ctx.extra.setdefault("_nontrivial", set())
     for ln in lines:
-        o = ln["o"]
-        hit = {"U": lambda: len(ln["p"]) > 0 and ln["p"] != o["n0"][1:],
-               "B": lambda: o["mpq0"] == [2] or (len(ln["q"]) > 0 and o["sub"][0] == 1),
-               "T": lambda: (o["mpq0"] == [2] and o["mqr0"] == [2]) or (o["out"][0] == 1 and len(ln["q"]) > 0),
-               "X": lambda: o["xa"][0] == 1 and len(ln["q"]) > 0}[ln["kind"]]()
-        if hit:
-            nontriv.add((ln["kind"], str(ln["c"]), str(ln["c2"]), str(ln["p"]), str(ln["q"]), str(ln["r"])))
+        by_kind[ln["kind"]] = by_kind.get(ln["kind"], 0) + 1
+        if nontrivial(ln):
+            nontriv.add(hash((ln["kind"], tuple(ln["c"].values()), tuple(ln["c2"].values()),
+                              tuple(ln["p"]), tuple(ln["q"]), tuple(ln["r"]))))
     for ti, line, clause in viols:
         ln = lines[index[ti][line - 1]]
         law, shape, exc = (clause.split("@") + ["", ""])[:3]
@@ -344,6 +346,18 @@ def run_cases(ctx, cases, what):
         ctx.report(sig, shown, replay=case)
 
 
+def nontrivial(ln):
+    """A law's premise is met non-vacuously by this case (the rule stated in the evidence; counting, not judging)."""
+    o, k = ln["o"], ln["kind"]
+    if k == "U":
+        return len(ln["p"]) > 0 and ln["p"] != o["n0"][1:]
+    if k == "B":
+        return o["mpq0"] == [2] or (len(ln["q"]) > 0 and o["sub"][0] == 1)
+    if k == "T":
+        return (o["mpq0"] == [2] and o["mqr0"] == [2]) or (len(ln["q"]) > 0 and o["out"][0] == 1)
+    return len(ln["q"]) > 0 and o["xa"][0] == 1
+
+
 def show_conv(c):
     return "sep=%r alt=%r case_sensitive=%s win_paths=%s" % (CH[c["sep"]], CH[3 - c["sep"]], bool(c["cs"]), bool(c["win"]))
 
@@ -366,8 +380,8 @@ def bounds(tier):
     """U: |p|; B: (|p|, |q|); T: (|p|, |q|, |r|); XALL: (|r0|, |q|, |r1|) for all 64 ordered pairs of configurations;
     XDEEP: further bounds for the 16 pairs (same configuration, opposite configuration)."""
     if tier == "quick":
-        return dict(U=4, B=(2, 2), T=(2, 1, 1), XALL=(1, 1, 1), XDEEP=[(1, 2, 0), (0, 2, 1)], nlong=40, mc=MC_QUICK)
-    return dict(U=5, B=(3, 2), T=(2, 2, 1), XALL=(1, 2, 1), XDEEP=[(2, 1, 1), (1, 1, 2)], nlong=400, mc=MC_QUICK + MC_THOROUGH)
+        return dict(U=4, B=(2, 2), T=(1, 1, 1), XALL=(1, 1, 0), XDEEP=[(1, 1, 1), (1, 2, 0), (0, 2, 1)], nlong=40, mc=MC_QUICK)
+    return dict(U=5, B=(3, 2), T=(2, 2, 1), XALL=(1, 1, 1), XDEEP=[(1, 2, 1), (2, 1, 1)], nlong=400, mc=MC_QUICK + MC_THOROUGH)
 
 
 def partner(c):
@@ -384,10 +398,10 @@ def plan(b):
         out.append(("T", t, None, (t[2],) + tuple(b["T"])))
     for ta in CONVS:
         for tb in CONVS:
-            out.append(("X", ta, tb, (max(ta[2], tb[2]),) + tuple(b["XALL"])))
-            if tb == ta or tb == partner(ta):
-                for deep in b["XDEEP"]:
-                    out.append(("X", ta, tb, (max(ta[2], tb[2]),) + tuple(deep)))
+            fams = [tuple(b["XALL"])] + ([tuple(d) for d in b["XDEEP"]] if tb == ta or tb == partner(ta) else [])
+            for f in fams:       # a family contained in another one of the same pair would only repeat its cases
+                if not any(g != f and all(x <= y for x, y in zip(f, g)) for g in fams):
+                    out.append(("X", ta, tb, (max(ta[2], tb[2]),) + f))
     return out
 
 
@@ -404,7 +418,8 @@ def run(ctx):
     ctx.assume(
         "characters are represented by 8 classes: both separators, 'a', 'A', '.', ' ', U+00E9, ':' (':' enumerated only where "
         "win_paths is on, and in the long random paths)",
-        "the helpers are exercised on MockProvider subclasses that only set sep / alt_sep / case_sensitive / win_paths; "
+        "the helpers are exercised on bare Provider subclasses (abstract methods stubbed) that only set sep / alt_sep / "
+        "case_sensitive / win_paths; "
         "translate on real CloudSync objects whose roots attribute is assigned per case; is_subpath_of_root with the "
         "provider's _root_path attribute assigned per case",
         "folder laws are stated for absolute folders join(f) and relative parts that are not drive-qualified where win_paths "
@@ -433,8 +448,19 @@ def run(ctx):
     exemplars = [f["exemplar"] for f in ctx.findings if f.get("exemplar")]
 
     by_kind = {"U": [], "B": [], "T": [], "X": []}
+    seen = set()
     for kind, ta, tb, f in todo:
-        by_kind[kind] += cases_for(kind, conv(ta), conv(tb) if tb else C0, generate(ctx, *f))
+        triples = generate(ctx, *f)
+        if kind == "X":          # the bounds of one pair of configurations overlap: keep each input once
+            fresh = []
+            for t in triples:
+                key = (ta, tb, tuple(t[0]), tuple(t[1]), tuple(t[2]))
+                if key not in seen:
+                    seen.add(key)
+                    fresh.append(t)
+            triples = fresh
+        by_kind[kind] += cases_for(kind, conv(ta), conv(tb) if tb else C0, triples)
+    del seen
     ctx.extra["families"] = {
         "U": "every string |p|<=%d, 8 configurations" % b["U"],
         "B": "every pair |p|<=%d |q|<=%d, 8 configurations" % b["B"],
@@ -449,9 +475,10 @@ def run(ctx):
     if ctx.tier == "quick":
         run_cases(ctx, exemplars + [x for k in "UBTX" for x in by_kind[k]], "finding exemplars + exhaustive families")
     else:
-        for k in "UBTX":                 # one kind at a time keeps the driver's memory bounded
-            run_cases(ctx, (exemplars if k == "U" else []) + by_kind[k], "exhaustive family " + k)
-            by_kind[k] = None
+        for k in "UBTX":                 # one slice of one kind at a time keeps the driver's memory bounded
+            todo_k, by_kind[k] = (exemplars if k == "U" else []) + by_kind[k], None
+            for at in range(0, len(todo_k), SLICE):
+                run_cases(ctx, todo_k[at:at + SLICE], "exhaustive family %s [%d..]" % (k, at))
 
     # long random paths
     res = ctx.tlc("Gen_PathsLong", "Gen_PathsLong.cfg", what="simulate long paths and variants", workers=1, count=False,
